@@ -90,11 +90,12 @@ class Epoch:
         self.nbuilt += 1
         configs = [build_config(self.fam, rc, self.base, self.work / f'cfg{os.getpid()}_{self.nbuilt}_{i}')
                    for i, rc in enumerate(rcs)]
+        pm = not self.model.name_mode
         if registry is not None:
-            return None, [Chain(configs[0], shared_tasks=registry)]
+            return None, [Chain(configs[0], shared_tasks=registry, parameter_mode=pm)]
         if len(rcs) == 1 and not self.opts.get('always_multi'):
-            return None, [Chain(configs[0])]
-        mc = MultiChain(configs)
+            return None, [Chain(configs[0], parameter_mode=pm)]
+        mc = MultiChain(configs, parameter_mode=pm)
         return mc, [mc[c.name] for c in configs]
 
     def task(self, chain, node):
@@ -108,7 +109,10 @@ class Epoch:
         if self._paths is None:
             self._paths = {}
             for rc in self.model.rcs:
-                _, (ch,) = self._new_chains([rc])
+                try:
+                    _, (ch,) = self._new_chains([rc])
+                except Exception:  # noqa  (reported by the step that builds this configuration)
+                    continue
                 for node in self.model.res[rc]:
                     d = self.model.did[(rc, node)]
                     t = self.task(ch, node)
@@ -177,7 +181,7 @@ class Epoch:
             ch.force(arg, recompute=act['rec'], delete_data=act['del'])
             return out
         if name == 'MultiForce':
-            if sl['mc'] is not None:
+            if sl['mc'] is not None and len(sl['mc'].chains) == len(sl['chains']):
                 sl['mc'].force(sorted(act['T']), recompute=act['rec'], delete_data=act['del'])
             else:   # chains built one after the other on a shared registry: what MultiChain.force does, by hand
                 for ch in sl['chains']:
@@ -448,8 +452,12 @@ def _final_check(model, base, work, final_state):
     ep = Epoch(model, Path(base), Path(work), {})
     mm = []
     for rc in model.rcs:
-        _, (ch,) = ep._new_chains([rc])
-        objd = {id(ep.task(ch, node)): model.did[(rc, node)] for node in model.res[rc]}
+        try:
+            _, (ch,) = ep._new_chains([rc])
+            objd = {id(ep.task(ch, node)): model.did[(rc, node)] for node in model.res[rc]}
+        except Exception as e:  # noqa  the library fails on a configuration every standalone chain must build
+            mm.append(('construct', f'fresh process: building the chain of {rc} failed: {type(e).__name__}: {e}'))
+            continue
         for node in model.res[rc]:
             d = model.did[(rc, node)]
             gen.RUNLOG.clear()
